@@ -13,7 +13,7 @@ pub fn def() -> PropDef {
         job_level,
         run_job,
         replay,
-        rule: "config: virtual key v1 = x (and v2 = layer-while-held, observed through a layer-dependent key) operated by: physical keys with (on-press press|release|tap|toggle-vkey), (on-release toggle-vkey), a macro item, the TCP path (handle_fakekey_action exactly as tcp_server.rs calls it: press/release/tap/toggle), (hold-for-duration 4) and (hold-for-duration 14), and a completed defseq sequence. Histories: ALL sequences of N operations over this 12-operation alphabet with inter-operation gaps from {3,4,5,9,14,15} (quick: N=3 with all gaps and N=4 with gaps {3,9}; thorough: N=4 with all gaps), then settle; a race family with gaps {0,1} over the TCP operations only; a macro-collision family (a macro presses and releases v1 while another key carrying a custom action is pressed and released at EVERY tick offset of the macro: each virtual key shows exactly one pulse, nothing stays pressed); a layer family (the virtual key's action is layer-while-held; press / release / toggle from physical keys, a macro, on-release and the TCP path; ALL operation sequences of length <= 4 with a layer-dependent probe key tapped after every operation); on-idle family through the idle loop twin (can_block_update_idle_waiting/tick): idle time I in {4,6}, activity injected at every offset. Oracle VkeySpec: one boolean per virtual key (press sets, release clears, tap pulses, toggle flips; identical from every source); number of press pulses of x and final state equal the model's; hold-for-duration: x goes up exactly D ticks after the arrival of the most recent activation when nothing else touches the key in between, never earlier; on-idle: fires exactly once, I idle ticks after the last activity, not before.",
+        rule: "config: virtual key v1 = x (and v2 = layer-while-held, observed through a layer-dependent key) operated by: physical keys with (on-press press|release|tap|toggle-vkey), (on-release toggle-vkey), a macro item, the TCP path (handle_fakekey_action exactly as tcp_server.rs calls it: press/release/tap/toggle), (hold-for-duration 4) and (hold-for-duration 14), and a completed defseq sequence. Histories: ALL sequences of N operations over this 12-operation alphabet with inter-operation gaps from {3,4,5,9,14,15} (quick: N=3 with all gaps and N=4 with gaps {3,9}; thorough: N=4 with all gaps), then settle; a race family with gaps {0,1} over the TCP operations only; a macro-collision family (a macro presses and releases v1 while another key carrying a custom action is pressed and released at EVERY tick offset of the macro: each virtual key shows exactly one pulse, nothing stays pressed); a layer family (the virtual key's action is layer-while-held; press / release / toggle from physical keys, a macro, on-release and the TCP path; ALL operation sequences of length <= 4 with a layer-dependent probe key tapped after every operation); on-idle family through the idle loop twin (can_block_update_idle_waiting/tick): idle time I in {4,6}, activity injected at every offset. Oracle VkeySpec: one boolean per virtual key (press sets, release clears, tap pulses, toggle flips; identical from every source); number of press pulses of x and final state equal the model's; hold-for-duration: x goes up exactly D ticks after the arrival of the most recent activation when nothing else touches the key in between, never earlier; on-idle: fires exactly once, I idle ticks after the last activity, not before; two on-idle actions pending together (idle times (4,20), (20,4), (6,6); the same virtual key and action kind, or two virtual keys; the second armed at every offset while the first is pending): each fires exactly once and none before its own idle time.",
         assumptions: &["operations are at least 3 ticks apart in the main family so that each has been processed before the next reads the key state (the 0/1-tick race family is reported separately)", "the TCP source is exercised through the function tcp_server.rs calls, not through a socket"],
         required_level,
         min_outcomes: 3,
@@ -378,6 +378,83 @@ fn run_on_idle(st: &mut Stats, found: &mut Vec<Violation>) {
     st.sample(json!({"family": "on-idle through the idle loop twin", "idle": [4, 6]}));
 }
 
+/// Two on-idle actions pending at the same time (same virtual key and action kind, different idle times;
+/// also two different virtual keys): each fires exactly once, none before its own idle time.
+fn run_on_idle_two(st: &mut Stats, found: &mut Vec<Violation>) {
+    use super::c07::{run_loop, Step};
+    for (ia, ib) in [(4u32, 20u32), (20, 4), (6, 6)] {
+        for same_vkey in [true, false] {
+            if same_vkey && ia == ib {
+                // two IDENTICAL requests (same key, kind and idle time) are one entry of the pending set and fire
+                // once: the property does not say otherwise, not checked
+                continue;
+            }
+            let cfg = format!(
+                "(defcfg)\n(defsrc a b c)\n(defvirtualkeys v1 x v2 {})\n(deflayer base (on-idle {ia} tap-vkey v1) (on-idle {ib} tap-vkey {}) c)\n",
+                if same_vkey { "z" } else { "y" },
+                if same_vkey { "v1" } else { "v2" }
+            );
+            let (a, b) = (kc("a"), kc("b"));
+            // b is tapped g ms after a's release, while a's on-idle is still pending (g + 2 < ia)
+            for g in 0..ia.saturating_sub(2) {
+                let mut steps = vec![Step::G(2), Step::E(true, a), Step::G(2), Step::E(false, a)];
+                if g > 0 {
+                    steps.push(Step::G(g));
+                }
+                steps.push(Step::E(true, b));
+                steps.push(Step::E(false, b));
+                let last = 6 + g as u64 + 2;
+                steps.push(Step::G(120));
+                st.evaluations += 1;
+                match run_loop(&cfg, &steps, true, false) {
+                    Err(m) => found.push(Violation { property: "C18".into(), signature: format!("on-idle-two::{}", panic_signature(&m)), what: m, detail: json!({"kind": "on-idle", "cfg": cfg}) }),
+                    Ok(r) => {
+                        st.validated += 1;
+                        let xs: Vec<u64> = r.outputs.iter().filter(|(_, e)| e == "out:↓X").map(|x| x.0).collect();
+                        let ys: Vec<u64> = r.outputs.iter().filter(|(_, e)| e == "out:↓Y").map(|x| x.0).collect();
+                        st.outcome(&format!("on-idle-two-fired{}+{}", xs.len(), ys.len()));
+                        // expected pulses: (idle time, which output)
+                        let (lo, hi) = (ia.min(ib) as u64, ia.max(ib) as u64);
+                        let slack = 16;
+                        let sig = if same_vkey {
+                            if xs.len() < 2 {
+                                Some("on-idle-two::one-of-two-pending-never-fired")
+                            } else if xs.len() > 2 {
+                                Some("on-idle-two::fired-more-than-once")
+                            } else if xs[0] < last + lo || xs[1] < last + hi {
+                                Some("on-idle-two::fired-before-idle-time")
+                            } else if xs[0] > last + lo + slack || xs[1] > last + lo + hi + slack {
+                                Some("on-idle-two::fired-late")
+                            } else {
+                                None
+                            }
+                        } else if xs.len() != 1 || ys.len() != 1 {
+                            Some(if xs.len() > 1 || ys.len() > 1 { "on-idle-two::fired-more-than-once" } else { "on-idle-two::one-of-two-pending-never-fired" })
+                        } else if xs[0] < last + ia as u64 || ys[0] < last + ib as u64 {
+                            Some("on-idle-two::fired-before-idle-time")
+                        } else if xs[0] > last + lo + hi + slack || ys[0] > last + lo + hi + slack {
+                            Some("on-idle-two::fired-late")
+                        } else {
+                            None
+                        };
+                        if let Some(sig) = sig {
+                            if !found.iter().any(|f| f.signature == sig) {
+                                found.push(Violation {
+                                    property: "C18".into(),
+                                    signature: sig.to_string(),
+                                    what: format!("a=(on-idle {ia} tap-vkey v1), b=(on-idle {ib} tap-vkey {}), b tapped {g} ms after a, last activity at ms {last}: x pressed at ms {xs:?}, y at {ys:?}", if same_vkey { "v1" } else { "v2" }),
+                                    detail: json!({"kind": "on-idle", "cfg": cfg, "history": super::c07::steps_to_string(&steps)}),
+                                });
+                            }
+                        }
+                    }
+                }
+            }
+        }
+    }
+    st.sample(json!({"family": "two on-idle actions pending together", "idle pairs": [[4, 20], [20, 4], [6, 6]], "same virtual key": [true, false]}));
+}
+
 fn run_sequence(st: &mut Stats, found: &mut Vec<Violation>) {
     // completing the sequence "j k" after the leader taps v1: same effect as any other tap, from both states
     for pre in [None, Some(Op::TcpPress)] {
@@ -588,7 +665,10 @@ fn run_job(tier: Tier, idx: usize, st: &mut Stats) {
             }
         }
         Job::Race => run_race(st, &mut found),
-        Job::OnIdle => run_on_idle(st, &mut found),
+        Job::OnIdle => {
+            run_on_idle(st, &mut found);
+            run_on_idle_two(st, &mut found);
+        }
         Job::Sequence => run_sequence(st, &mut found),
         Job::LayerKey => run_layer_key(st, &mut found),
         Job::MacroCollision => run_macro_collision(st, &mut found),
@@ -602,7 +682,10 @@ fn replay(d: &serde_json::Value) -> Vec<Violation> {
     let mut st = Stats::default();
     let mut found = vec![];
     match d.get("kind").and_then(|x| x.as_str()).unwrap_or("") {
-        "on-idle" => run_on_idle(&mut st, &mut found),
+        "on-idle" => {
+            run_on_idle(&mut st, &mut found);
+            run_on_idle_two(&mut st, &mut found);
+        }
         "sequence" => run_sequence(&mut st, &mut found),
         "race" => run_race(&mut st, &mut found),
         "layer-key" => run_layer_key(&mut st, &mut found),
